@@ -95,7 +95,13 @@ func (r *validationResponseHandler) HandleValidationResponse(
 			ccResp = ParseCCResponseDirectives(resp.Header)
 			ccRespOnce = true
 		}
-		if r.siep.CanStaleOnError(ctx.Freshness, ccResp) {
+		// RFC 5861 §4: the stale-if-error extension is taken from the stored
+		// response or from the request (not from the error reply), and it never
+		// overrides must-revalidate or no-cache (RFC 9111 §4.2.4).
+		storedCC := ParseCCResponseDirectives(ctx.Stored.Data.Header)
+		noCacheFields, storedNoCache := storedCC.NoCache()
+		forbidden := storedCC.MustRevalidate() || (storedNoCache && noCacheFields == "") || ctx.CCReq.NoCache()
+		if !forbidden && r.siep.CanStaleOnError(ctx.Freshness, storedCC, ctx.CCReq) {
 			// RFC 9111 §4.2.4 Serving Stale Responses
 			// RFC 9111 §4.3.3 Handling Validation Responses (5xx errors)
 			SetAgeHeader(ctx.Stored.Data, r.clock, ctx.Freshness.Age)
